@@ -206,6 +206,46 @@ func usesFailedResultType(calls []Call) bool {
 	return false
 }
 
+// sigCtx is the context part of a signature. For a program in a scaffold variant
+// (base@dim=kind,...) the variant is generalised as far as the failure allows, so that one root
+// cause does not yield one signature per environment: if the same enumerated calls fail the
+// same way in the base scaffold the context is the base context (the signature is then the one
+// the base family gives); else, if they fail with only the kind of the type the reference goes
+// into changed, it is "base into=dim=kind"; else the full variant name.
+func sigCtx(q *Program, same func(*Outcome) bool) string {
+	base, suffix := splitVariant(q.Ctx)
+	if suffix == "" {
+		return q.Ctx
+	}
+	t := *q
+	t.Ctx = base
+	if _, k, ok := parseVariant(q.Ctx); ok && k["v"] != "" {
+		// the base scaffold's viewed type is RT
+		t = *t.withCalls(renameInCalls(q.enumerated(), func(a *Arg) {
+			if a.K == "ut" && a.S == "VRT" {
+				a.S = "RT"
+			}
+		}))
+	}
+	if same(rerun(&t)) {
+		return base
+	}
+	t = *q
+	if _, k, ok := parseVariant(q.Ctx); ok && q.Dangling != "" {
+		if dim := templateDim(q.Dangling, base); dim != "" && k[dim] != "" {
+			into := base + " into=" + dim + "=" + k[dim]
+			if len(k) == 1 {
+				return into
+			}
+			t.Ctx = variantName(base, map[string]string{dim: k[dim]})
+			if same(rerun(&t)) {
+				return into
+			}
+		}
+	}
+	return base + " env=" + suffix
+}
+
 // judge applies the oracle to one executed program and returns its violations (none for the
 // overwhelming majority of programs).
 func judge(p *Program, out *Outcome) []Viol {
@@ -254,6 +294,9 @@ func judge(p *Program, out *Outcome) []Viol {
 			if o.culprit != nil {
 				fn = "(" + o.Phase + " scaffold " + o.culprit.Fn + ")"
 			}
+			if ctx != "toplevel" {
+				ctx = sigCtx(q, same)
+			}
 			sig = fmt.Sprintf("panic fn=%s ctx=%s site=%s kind=%s", fn, ctx, o.Site, o.Kind)
 		}
 		return []Viol{{Sig: sig, What: what, Prog: p, Min: q, Src: q.Source()}}
@@ -281,7 +324,7 @@ func judge(p *Program, out *Outcome) []Viol {
 		if len(comp) > 0 {
 			with = describe(comp)
 		}
-		sig := fmt.Sprintf("dangling-accepted ref=%s call=%s pos=%s ctx=%s with=%s", p.Dangling, describe(ref), zzPosition(q.enumerated()), q.Ctx, with)
+		sig := fmt.Sprintf("dangling-accepted ref=%s call=%s pos=%s ctx=%s with=%s", p.Dangling, describe(ref), zzPosition(q.enumerated()), sigCtx(q, same), with)
 		kept := "the accepted design still mentions the name"
 		if !out.HasZZ {
 			kept = "the reference was silently dropped from the accepted design"
